@@ -595,6 +595,7 @@ def ordering(rep, idx):
 
 
 MAP_CLASSES = ("MemoryMap", "_RangeMap", "_Namespace")
+PURE_QUERIES = ("resources", "windows", "window_patterns", "all_resources", "find_resource", "decode_address")
 TABLES = ("_ranges", "_resources", "_windows", "_namespace", "_starts", "_stops", "_keys", "_values", "_assignments")
 
 
@@ -616,6 +617,15 @@ def query_coherence(rep, idx, rule="C02.10", only=None):
         other_state = {n for n, lst in summ.items() for f, w in lst if n != "__init__" and w and w <= {"_frozen", "_next_addr"}}
         mutators = {n for n, lst in summ.items() for f, w in lst if n != "__init__" and w & set(TABLES)}
         for name, lst in sorted(summ.items()):
+            if cname == "MemoryMap" and name in PURE_QUERIES and name in other_state and (only is None or name in only):
+                # a look-up that freezes (or moves the cursor of) the map it is asked about changes what the user may do next
+                for f, w in lst:
+                    for attr in sorted(w):
+                        rep.bad(rule, f.site, f"{cname}.{name}() writes no field of the map",
+                                f"the query sets self.{attr}" + (": the map is frozen by merely looking something up, and the next add_resource() / "
+                                                                 "add_window() on a map the user never froze is refused" if attr == "_frozen" else
+                                                                 ": the placement cursor moves when the map is only inspected"))
+                continue
             if name == "__init__" or name in mutators or name in other_state:
                 continue
             if only is not None and name not in only:
